@@ -198,6 +198,62 @@ def imhEstimate (ratio : σ → α) (f : σ → α) (inSupport : σ → Bool) (m
     | none => none
     | some v => some (v / ((mcSamples - burnIn : Nat) : α))
 
+/-! ### value semantics of the chain
+
+`imhLoop` threads a running sum.  What it sums are VALUES: `f b_t` is computed once, at step
+`t`, from the state `b_t` the chain has at that step, and is a number from then on — nothing a
+later step does can change it.  The functions below say this directly: the chain as a list of
+states, and the list of recorded values `f b_t` (`t ≥ burn_in`).  `C19_imh_values` proves that
+`imhEstimate` is the mean of that list for ANY densities, draws and uniforms;
+`C19_imh_recorded_prefix` that more steps only append to it.
+
+In the implementation states and recorded values are tensors, and a callback may return a tensor
+that shares storage with its argument (`f(b) = b`, `b[..., 0]`, `b.squeeze(-1)`, a no-op cast), or a
+view of a table it keeps.  That the implementation nevertheless behaves as this list of values — no
+buffer reused between steps ever reaches a recorded value, an `initial_sample`, or a tensor the
+proposal / the callback handed out — is NOT provable here (the model has no storage): it is what
+the correspondence checks, by running every estimator with callbacks written in each of those ways
+next to the same function returning a fresh tensor. -/
+
+/-- one step of the chain: the new state and its log-ratio -/
+def imhStep (ratio : σ → α) (last : σ) (lastR : α) (cur : σ) (lu : Option α) : σ × α :=
+  let curR := ratio cur
+  let accept : Bool := match lu with
+    | none => true
+    | some l => decide (l < curR - lastR)
+  (if accept then cur else last, if accept then curR else lastR)
+
+/-- the chain states `b_1, b_2, …` (one per step), given the start and its log-ratio -/
+def imhChain (ratio : σ → α) : σ → α → List (σ × Option α) → List σ
+  | _, _, [] => []
+  | last, lastR, (cur, lu) :: rest =>
+    let s := imhStep ratio last lastR cur lu
+    s.1 :: imhChain ratio s.1 s.2 rest
+
+/-- state (and its log-ratio) after a list of steps -/
+def imhAfter (ratio : σ → α) : σ → α → List (σ × Option α) → σ × α
+  | last, lastR, [] => (last, lastR)
+  | last, lastR, (cur, lu) :: rest =>
+    let s := imhStep ratio last lastR cur lu
+    imhAfter ratio s.1 s.2 rest
+
+/-- the values the loop records: `f b_t` for the kept states, in the order of the steps -/
+def imhRecorded (ratio : σ → α) (f : σ → α) (burnIn : Nat) (b0 : σ) (steps : List (σ × Option α)) :
+    List α :=
+  ((imhChain ratio b0 (ratio b0) steps).drop burnIn).map f
+
+/-- the whole call as the list of recorded values (`none`: an error was raised) -/
+def imhValues (ratio : σ → α) (f : σ → α) (inSupport : σ → Bool) (mcSamples burnIn tries : Nat)
+    (init : Option σ) (draws : List σ) (lus : List (Option α)) : Option (List α) :=
+  let start : Option (σ × List σ) := match init with
+    | some b => some (b, draws)
+    | none => findInitial inSupport tries draws
+  match start with
+  | none => none
+  | some (b0, rest) =>
+    if rest.length < mcSamples ∨ lus.length < mcSamples then none else
+    some (imhRecorded ratio f burnIn b0 ((rest.take mcSamples).zip (lus.take mcSamples)))
+
 end IMH
 
 /-! ## Relaxed distributions (`_straight_through.py`), generic in `exp`/`log` -/
